@@ -437,7 +437,16 @@ func checkC15(c *fw.Ctx) {
 			n := 0
 			for _, r := range t.Rows {
 				if r.Outcome != "call:gmsl.handleInviteCommonChecks" {
-					c.Check(r.Outcome == "reject", "4 invite", "HandleInvite decides only through the common checks", c.P.Pos(fw.InstrPos(r.Ret)), "", "a return with outcome "+r.Outcome)
+					switch {
+					case r.Outcome == "reject":
+						c.Ok("4 invite", "HandleInvite decides only through the common checks", c.P.Pos(fw.InstrPos(r.Ret)), "")
+					case strings.HasPrefix(r.Outcome, "call:") && (strings.Contains(r.Outcome, "$") || !strings.HasPrefix(r.Outcome, "call:gmsl.") || strings.Contains(r.Outcome, "(")):
+						// what a local closure or a function value returns (`return badJSON("…")`,
+						// `return internalError(err, "…")`) is not read here
+						c.Undecided("4 invite", "HandleInvite decides only through the common checks", "a return hands back the result of "+strings.TrimPrefix(r.Outcome, "call:")+" ("+c.P.Pos(fw.InstrPos(r.Ret))+")")
+					default:
+						c.Fail("4 invite", "HandleInvite decides only through the common checks", c.P.Pos(fw.InstrPos(r.Ret)), "a return with outcome "+r.Outcome)
+					}
 					continue
 				}
 				n++
@@ -453,6 +462,10 @@ func checkC15(c *fw.Ctx) {
 						if !ok {
 							bad = true
 						}
+					}
+					if bad && opaqueCompareInRow(r, nn) {
+						c.Undecided("4 invite", "HandleInvite: acceptance requires "+nn.what, "the test is made on a value obtained through a callback")
+						continue
 					}
 					c.Check(!bad, "4 invite", "HandleInvite: acceptance requires "+nn.what, c.P.Pos(fw.InstrPos(r.Ret)), "", "the common checks are reachable without establishing: "+nn.what)
 				}
@@ -546,6 +559,10 @@ func checkC15(c *fw.Ctx) {
 						if !termHas(term, nn.alts[0]) {
 							bad = true
 						}
+					}
+					if bad && opaqueCompareInRow(r, nn) {
+						c.Undecided("5 invite_v3", "HandleInviteV3: acceptance requires "+nn.what, "the test is made on a value obtained through a callback")
+						continue
 					}
 					c.Check(!bad, "5 invite_v3", "HandleInviteV3: acceptance requires "+nn.what, c.P.Pos(fw.InstrPos(r.Ret)), "", "not established on every path: "+nn.what)
 				}
@@ -811,4 +828,35 @@ func funcFromTable(v ssa.Value, depth int) bool {
 		}
 	}
 	return false
+}
+
+// opaqueCompareInRow: every term of the row carries a positive comparison between the result of
+// a dynamic call (a callback handed to a shared helper: `eventRoomID() == input.RoomID.String()`)
+// and the second operand the need names - the need may well be established, through a value the
+// table cannot name.
+func opaqueCompareInRow(r fw.Row, nn need) bool {
+	if len(nn.alts) == 0 || len(nn.alts[0].subs) == 0 {
+		return false
+	}
+	last := nn.alts[0].subs[len(nn.alts[0].subs)-1]
+	// the part of the need's pattern after the comparison operator
+	if i := strings.Index(last, "== "); i >= 0 {
+		last = last[i+3:]
+	}
+	last = strings.TrimSuffix(strings.TrimSuffix(last, ")"), ")")
+	if len(last) < 8 {
+		return false
+	}
+	for _, term := range r.Cond {
+		found := false
+		for _, x := range term {
+			if x.Pos && strings.Contains(x.Atom, "dyn(") && strings.Contains(x.Atom, " == ") && strings.Contains(x.Atom, last) {
+				found = true
+			}
+		}
+		if !found {
+			return false
+		}
+	}
+	return len(r.Cond) > 0
 }
